@@ -242,6 +242,8 @@ fn rule_key() -> impl Strategy<Value = UStr> {
         1 => Just(UStr::plain("GamePassword", Enc::Latin1)),
         3 => prop::sample::select(vec!["ServerMode", "AdminName", "GameStats", "MinPlayers", "k"]).prop_map(|s| UStr::plain(s, Enc::Latin1)),
         4 => ustr(20),
+        // keys that only resemble the special ones (MutatorCount, xMutator, GamePasswords, gamepassword ...)
+        2 => crate::util::near(&["Mutator", "GamePassword"]).prop_map(|s| UStr::plain(&s, Enc::Latin1)),
     ]
 }
 
